@@ -606,6 +606,9 @@ Qed.
 Lemma text_opt_text o dflt : opt_ok o -> text dflt -> text (opt_text o dflt).
 Proof. destruct o as [[|c s]|]; cbn [opt_ok opt_text]; intros H T; try exact T. destruct H as [_ H]. exact H. Qed.
 
+Lemma text_id_text o dflt : id_ok o -> text dflt -> text (opt_text o dflt).
+Proof. destruct o as [[|c s]|]; cbn [id_ok opt_text]; intros H T; try exact T. exact H. Qed.
+
 Lemma opt_text_some o dflt : opt_ok o -> opt_text o dflt = match o with Some s => s | None => dflt end.
 Proof. destruct o as [[|c s]|]; cbn [opt_ok opt_text]; intros H; try reflexivity. destruct H as [H _]. congruence. Qed.
 
@@ -625,7 +628,7 @@ Qed.
 (* what the reader returns for a written file *)
 Definition reloaded (st : state) (genby date : str) : loaded :=
   mkLd (st_oids st) (st_sids st) (st_mat st) (md_loaded (st_omd st)) (md_loaded (st_smd st))
-       (st_type st) (match st_id st with Some s => s | None => s_no_table_id end) genby date
+       (st_type st) (opt_text (st_id st) s_no_table_id) genby date
        (map (fun e => (fst e, snd (snd e))) (st_ogmd st)) (map (fun e => (fst e, snd (snd e))) (st_sgmd st)).
 
 Theorem from_hdf5_written st genby date ax : wf_state st -> meta_ok st -> text genby -> text date ->
@@ -638,7 +641,7 @@ Proof.
   destruct (st_mat_shape st W) as [ML MR].
   unfold from_hdf5, attr_text, need_dset.
   rewrite w_attr_id, w_attr_date, w_attr_genby, w_attr_shape, w_attr_type.
-  rewrite (dec_enc _ (text_opt_text _ _ Oid text_placeholder)). cbn [bind].
+  rewrite (dec_enc _ (text_id_text _ _ Oid text_placeholder)). cbn [bind].
   rewrite (dec_enc _ Td). cbn [bind]. rewrite (dec_enc _ Tg). cbn [bind].
   rewrite (dec_enc _ (text_opt_text _ _ Oty text_nil)). cbn [bind].
   rewrite (axis_load_ok _ b_observation (st_oids st) (st_omd st) (st_ogmd st)); try assumption;
@@ -655,11 +658,11 @@ Proof.
   - rewrite w_get_obs_data, w_get_obs_indices, w_get_obs_indptr. cbn [bind d_num]. rewrite Fin, Ty, !ns_zs.
     replace (mkCS (st_nobs st) (st_nsamp st) (indptr (w_obs st)) (indices (w_obs st)) (data (w_obs st)))
       with (w_obs st) by (rewrite <- O2, <- O3; symmetry; apply cs_eta).
-    rewrite O4, (opt_text_some _ _ Oid). reflexivity.
+    rewrite O4. reflexivity.
   - rewrite w_get_samp_data, w_get_samp_indices, w_get_samp_indptr. cbn [bind d_num]. rewrite Fin, Ty, !ns_zs.
     replace (mkCS (st_nsamp st) (st_nobs st) (indptr (w_samp st)) (indices (w_samp st)) (data (w_samp st)))
       with (w_samp st) by (rewrite <- S2, <- S3; symmetry; apply cs_eta).
-    rewrite S4, (opt_text_some _ _ Oid). rewrite <- ML at 1. rewrite (transpose_involutive _ _ MR). reflexivity.
+    rewrite S4. rewrite <- ML at 1. rewrite (transpose_involutive _ _ MR). reflexivity.
 Qed.
 
 Theorem hdf5_roundtrip st genby date ax : wf_state st -> meta_ok st -> text genby -> text date ->
@@ -669,7 +672,7 @@ Theorem hdf5_roundtrip st genby date ax : wf_state st -> meta_ok st -> text genb
     /\ l_mat ld = st_mat st
     /\ md_agree (l_omd ld) (md_norm (st_omd st)) /\ md_agree (l_smd ld) (md_norm (st_smd st))
     /\ l_type ld = st_type st
-    /\ l_id ld = match st_id st with Some s => s | None => s_no_table_id end
+    /\ l_id ld = opt_text (st_id st) s_no_table_id
     /\ l_genby ld = genby /\ l_date ld = date
     /\ l_ogmd ld = map (fun e => (fst e, snd (snd e))) (st_ogmd st)
     /\ l_sgmd ld = map (fun e => (fst e, snd (snd e))) (st_sgmd st).
@@ -887,11 +890,7 @@ Proof.
   - split; [discriminate|apply T; reflexivity].
 Qed.
 
-(* a decision procedure for wf_state (sound), to discharge concrete instances *)
-Definition wf_stateb (st : state) : bool :=
-  wf_csb (st_cs st) && Nat.eqb (length (st_oids st)) (st_nobs st) && Nat.eqb (length (st_sids st)) (st_nsamp st)
-  && negb (sdup (st_oids st)) && negb (sdup (st_sids st)) && forallb textb (st_oids st) && forallb textb (st_sids st).
-
+(* the decision procedure for wf_state is sound *)
 Lemma wf_stateb_sound st : wf_stateb st = true -> wf_state st.
 Proof.
   unfold wf_stateb, wf_state. intros H. do 6 (apply andb_true_iff in H; destruct H as [H ?]).
@@ -902,4 +901,110 @@ Proof.
   split; [apply wf_csb_wf_cs; assumption|]. split; [assumption|]. split; [assumption|].
   split; [apply sdup_sound; assumption|]. split; [apply sdup_sound; assumption|].
   split; apply Forall_textb; assumption.
+Qed.
+
+(* ------------------------------------------------------------------ F38: the escape is not injective, end to end *)
+(* a 1 x 1 table whose only observation category is named  @@SLASH@/ : everything but cat_ok holds,
+   the file is written and read without error, and the category comes back as  /@SLASH@@ *)
+Definition f38_st : state :=
+  mkSt [[111]]%Z [[115]]%Z CSR (mkCS 1 1 [0; 1] [0] [1%Z]) (Some [[(bad_name, MStr [118]%Z)]]) None None None [] [].
+
+Theorem hdf5_roundtrip_escape_refuted :
+  wf_state f38_st
+  /\ match bind (to_hdf5 f38_st [] []) (fun f => from_hdf5 f Samp) with
+     | ROk ld => l_omd ld = Some [[([47; 64; 83; 76; 65; 83; 72; 64; 64]%Z, MStr [118]%Z)]]
+                 /\ ~ md_agree (l_omd ld) (md_norm (st_omd f38_st))
+     | RErr _ => False
+     end.
+Proof.
+  split; [apply wf_stateb_sound; reflexivity|]. vm_compute. split; [reflexivity|].
+  intros H. inversion H as [|? ? ? ? [Hk _] _]; subst. specialize (Hk [47; 64; 83; 76; 65; 83; 72; 64; 64]%Z).
+  destruct Hk as [Hk _]. specialize (Hk (or_introl eq_refl)). destruct Hk as [Hk|[]]. discriminate.
+Qed.
+
+(* ------------------------------------------------------------------ the boolean hypotheses are sound *)
+Lemma is_nil_false {A} (l : list A) : negb (is_nil l) = true -> l <> [].
+Proof. destruct l; [discriminate|intros _; discriminate]. Qed.
+
+Lemma list_okb_sound v : list_okb v = true -> list_ok v.
+Proof.
+  destruct v; try discriminate. cbn [list_okb list_ok]. intros H. apply andb_true_iff in H. destruct H as [H1 H2].
+  split; [apply is_nil_false; exact H1|]. apply Forall_forall. intros s Hs. rewrite forallb_forall in H2.
+  specialize (H2 s Hs). apply andb_true_iff in H2. destruct H2 as [A B].
+  split; [apply is_nil_false; exact A|apply textb_text; exact B].
+Qed.
+
+Lemma str_okb_sound v : str_okb v = true -> str_ok v.
+Proof. destruct v; try discriminate. cbn [str_okb str_ok]. apply textb_text. Qed.
+
+Lemma forallb_Forall {A} (p : A -> bool) (P : A -> Prop) l :
+  (forall x, p x = true -> P x) -> forallb p l = true -> Forall P l.
+Proof. intros H F. apply Forall_forall. intros x Hx. rewrite forallb_forall in F. apply H. apply F. exact Hx. Qed.
+
+Lemma column_okb_sound k col : column_okb k col = true -> column_ok k col.
+Proof.
+  unfold column_okb, column_ok. destruct (reserved k).
+  - apply forallb_Forall. exact list_okb_sound.
+  - intros H. apply orb_true_iff in H. destruct H as [H|H]; [|right; right; right; exact H].
+    apply orb_true_iff in H. destruct H as [H|H]; [|right; right; left; exact H].
+    apply orb_true_iff in H. destruct H as [H|H]; [left|right; left; exact H].
+    revert H. apply forallb_Forall. exact str_okb_sound.
+Qed.
+
+Lemma cat_okb_sound k : cat_okb k = true -> cat_ok k.
+Proof.
+  unfold cat_okb, cat_ok. intros H. apply andb_true_iff in H. destruct H as [A B].
+  split; [apply textb_text; exact A|apply lz_eqb_eq; exact B].
+Qed.
+
+Lemma md_homogeneousb_sound md n : md_homogeneousb md n = true -> md_homogeneous md n.
+Proof.
+  destruct md as [rows|]; [|intros; exact I]. cbn [md_homogeneousb md_homogeneous]. intros H.
+  apply andb_true_iff in H. destruct H as [HL H]. apply Nat.eqb_eq in HL. split; [exact HL|].
+  destruct rows as [|r0 rest]; [exact I|].
+  do 4 (apply andb_true_iff in H; destruct H as [H ?]).
+  split; [apply is_nil_false; exact H|].
+  split; [apply sdup_sound; apply negb_true_iff; assumption|].
+  split; [eapply forallb_Forall; [exact cat_okb_sound|eassumption]|].
+  split.
+  - eapply forallb_Forall; [|eassumption]. intros r Hr. apply andb_true_iff in Hr. destruct Hr as [A B].
+    split; [apply sdup_sound; apply negb_true_iff; exact A|exact B].
+  - eapply forallb_Forall; [|eassumption]. intros k Hk. apply column_okb_sound. exact Hk.
+Qed.
+
+Lemma gmd_okb_sound g : gmd_okb g = true -> gmd_ok g.
+Proof.
+  unfold gmd_okb, gmd_ok. intros H. apply andb_true_iff in H. destruct H as [A B].
+  split; [apply sdup_sound; apply negb_true_iff; exact A|].
+  revert B. apply forallb_Forall. intros e He. do 3 (apply andb_true_iff in He; destruct He as [He ?]).
+  split; [apply textb_text; exact He|]. split; [apply negb_true_iff; assumption|].
+  split; apply textb_text; assumption.
+Qed.
+
+Lemma opt_okb_sound o : opt_okb o = true -> opt_ok o.
+Proof.
+  destruct o as [s|]; [|intros; exact I]. cbn [opt_okb opt_ok]. intros H. apply andb_true_iff in H. destruct H as [A B].
+  split; [apply is_nil_false; exact A|apply textb_text; exact B].
+Qed.
+
+Lemma meta_okb_sound st : meta_okb st = true -> meta_ok st.
+Proof.
+  unfold meta_okb, meta_ok. intros H. do 5 (apply andb_true_iff in H; destruct H as [H ?]).
+  split; [apply md_homogeneousb_sound; exact H|]. split; [apply md_homogeneousb_sound; assumption|].
+  split; [apply gmd_okb_sound; assumption|]. split; [apply gmd_okb_sound; assumption|].
+  split; [apply opt_okb_sound; assumption|].
+  match goal with X : id_okb _ = true |- _ => revert X end. unfold id_okb, id_ok. destruct (st_id st); [apply textb_text|intros; exact I].
+Qed.
+
+Lemma type_in_vocabb_sound st : type_in_vocabb st = true -> type_in_vocab st.
+Proof.
+  unfold type_in_vocabb, type_in_vocab. destruct (st_type st); [|intros; exact I]. apply existsb_lz_In.
+Qed.
+
+Theorem in_domainb_sound st genby date : in_domainb st genby date = true ->
+  wf_state st /\ meta_ok st /\ text genby /\ text date.
+Proof.
+  unfold in_domainb. intros H. do 3 (apply andb_true_iff in H; destruct H as [H ?]).
+  split; [apply wf_stateb_sound; exact H|]. split; [apply meta_okb_sound; assumption|].
+  split; apply textb_text; assumption.
 Qed.
